@@ -117,6 +117,22 @@ partial def showVal : PyVal → String
       let ts := (kvs.map (fun (k, v) => showStr k ++ " " ++ showVal v)).mergeSort (fun a b => !(decide (b < a)))
       " ".intercalate (("D" ++ toString kvs.length) :: ts)
 
+/-- canonical form of an encoded JSON tree: the element order of an encoded set
+    (`{"data": […], "_is_set": true}`; iteration order of a Python set) is not
+    part of what is compared -/
+partial def canonSets : PyVal → PyVal
+  | .list xs => .list (xs.map canonSets)
+  | .dict kvs =>
+    let kvs : List (String × PyVal) := kvs.map (fun (k, v) => (k, canonSets v))
+    match (lookup "_is_set" kvs : Option PyVal), (lookup "data" kvs : Option PyVal) with
+    | some (.bool true), some (.list xs) =>
+      let sorted := (xs.map (fun x => (showVal x, x))).mergeSort (fun a b => !(decide (b.1 < a.1)))
+      .dict (kvs.map (fun (k, v) => if k == "data" then (k, .list (sorted.map (·.2))) else (k, v)))
+    | _, _ => .dict kvs
+  | v => v
+
+def showTree (j : Json) : String := showVal (canonSets j.toVal)
+
 def showErr : Err → String
   | .py e => "error:" ++ toString e
   | .unmodelled => "unmodelled"
@@ -200,7 +216,7 @@ def handle (toks : List String) : String :=
     | _ => "bad-op"
   | "enc" :: rest =>
     match parseVal rest with
-    | some (v, []) => showVal (enc v).toVal
+    | some (v, []) => showTree (enc v)
     | _ => "bad-op"
   | "norm" :: rest =>
     match parseVal rest with
@@ -217,7 +233,7 @@ def handle (toks : List String) : String :=
     match parseVal rest with
     | some (v, []) =>
       match chainOfVal v with
-      | some c => showVal (paramsToJson c).toVal
+      | some c => showTree (paramsToJson c)
       | none => "bad-op"
     | _ => "bad-op"
   | "result" :: rest =>
@@ -231,7 +247,7 @@ def handle (toks : List String) : String :=
     match parseVal rest with
     | some (v, []) =>
       match resultOfVal v with
-      | some r => showVal (resultToJson r).toVal
+      | some r => showTree (resultToJson r)
       | none => "bad-op"
     | _ => "bad-op"
   | "sim" :: fuel :: rest =>
@@ -245,7 +261,7 @@ def handle (toks : List String) : String :=
     match parseVal rest with
     | some (v, []) =>
       match simOfVal v with
-      | some s => showVal (simToJson s).toVal
+      | some s => showTree (simToJson s)
       | none => "bad-op"
     | _ => "bad-op"
   | "choice" :: rest =>
@@ -268,11 +284,13 @@ def handle (toks : List String) : String :=
     | some fuel, some (.list [sv, .str txt, segs, .str ext, tbl], []) =>
       match simOfVal sv, segsOfVal segs with
       | some s, some sg =>
-        match saveToFile (frOfVal tbl) [] s txt sg ext with
-        | .ok (st, s', f) =>
+        match saveStep (frOfVal tbl) [] s txt sg ext with
+        | ((st, s'), .ok f) =>
           "ok name=" ++ showStr (f.stem ++ f.ext) ++ " orig=" ++ showVal s'.originalFilename ++ " loaded=" ++
             showR (fun s => showVal (simToDict s)) (loadFromFile fuel st f)
-        | .error e => showErr e
+        | ((st, s'), .error e) =>
+          -- rejected call: the state after it (object and number of files)
+          showErr e ++ " state=" ++ showVal (simToDict s') ++ " files=" ++ toString st.length
       | _, _ => "bad-op"
     | _, _ => "bad-op"
   | _ => "bad-op"
